@@ -10,7 +10,7 @@ export CARGO_TARGET_DIR=/tmp/vseed-target-$W CARGO_PROFILE_DEV_DEBUG=0 CARGO_PRO
 if [ ! -d "$WT" ]; then git -C /repo worktree add -q "$WT" HEAD || exit 2; fi
 cd "$WT" && git checkout -q -- . && git clean -fdq tests bevy_replicon_example_backend/tests src bevy_replicon_example_backend/src
 git -C "$WT" checkout -q --detach "$(git -C /repo rev-parse HEAD)" 2>/dev/null
-DEMO=$(ls "$D"/seed_demo_*.rs | head -1)
+DEMO=$(ls "$D"/seed*_demo_*.rs | head -1)
 NAME=$(basename "$DEMO" .rs)
 if grep -q "bevy_replicon_example_backend" "$D/patch.diff" && grep -q "RepliconExample\|ExampleServer\|ExampleClient" "$DEMO"; then DEST=bevy_replicon_example_backend/tests; PKG="-p bevy_replicon_example_backend"; else DEST=tests; PKG="-p bevy_replicon"; fi
 git apply --check "$D/patch.diff" || { echo "{\"seed\":\"$D\",\"applies\":false}"; exit 1; }
